@@ -1,3 +1,4 @@
+import Sparrow.Proofs.KernelCorollaries
 import Sparrow.Proofs.PipelineEnergy
 import Sparrow.Proofs.Energy
 import Sparrow.Proofs.Mono
@@ -134,3 +135,20 @@ theorem runPipeline_absorbing_wall_dark
   Sparrow.runPipeline_absorbing_wall_dark eta thr room mat par src recv bk r hb hr w hz k hk d t
 
 end Sparrow.Props.C01
+
+namespace Sparrow.Props.C01.Translated
+open Sparrow Sparrow.Generated.Kernels
+
+/-- C01: a patch whose initial energy and incoming transfer factors vanish in band `b` (fully
+    absorbing wall) stays dark in band `b`, at every order and bin. -/
+theorem energyExchange_absorbing_dark (S P D B : Nat) (e0 : Nat → Nat → Nat → ℝ)
+    (s0 : Nat) (distance_0 : Nat → ℝ) (s1 s2 : Nat) (distance_ij : Nat → Nat → ℝ)
+    (P' : Nat) (fft : Nat → Nat → Nat → Nat → ℝ) (s3 s4 : Nat) (p2o : Nat → Nat → Nat)
+    (c dt : ℝ) (K nVis s5 : Nat) (vp : Nat → Nat → Nat) (b : Nat)
+    (hwf : (exSceneOfArgs S P D e0 distance_0 distance_ij fft p2o c dt nVis vp b).WF)
+    (j : Nat) (hj : j < P) (h0 : ∀ d, e0 j d b = 0) (hf : ∀ i d, fft i j d b = 0)
+    (d t : Nat) (hd : d < D) (ht : t < S) :
+    energyExchange S P D B e0 s0 distance_0 s1 s2 distance_ij P P' D B fft s3 s4 p2o c dt K nVis s5 vp j d b t = 0 :=
+  Sparrow.energyExchange_absorbing_dark S P D B e0 s0 distance_0 s1 s2 distance_ij P' fft s3 s4 p2o c dt K nVis s5 vp b hwf j hj h0 hf d t hd ht
+
+end Sparrow.Props.C01.Translated
